@@ -127,7 +127,7 @@ func taintedVarBuckets(cr *crashRun, k int, v *crashfs.Variant) map[string]bool 
 		return path[:i]
 	}
 	if cr.kf03aPoint(k) {
-		out[keyOf(cr.Events[k-1].Path)] = true
+		out[keyOf(kf03aFile(cr.Events, k))] = true
 	}
 	if v != nil {
 		lost, kept := map[string]int{}, map[string]int{}
